@@ -237,7 +237,7 @@ theorem C02_skeleton_cipher :
 /-- Tie (T1): loading a session opens the cookie with the store's cipher on **every** request (no memo, no shortcut). -/
 theorem C02_skeleton_load :
     Sso.Generated.skel_store_LoadSession =
-      ["call:NewLogEntry", "call:Cookie", "if{", "return", "}", "call:UnmarshalSession", "if{", "call:WithRequestHost", "call:WithError", "call:Error", "return", "}", "return"] ∧
+      ["call:Cookie", "if{", "return", "}", "call:UnmarshalSession", "if{", "return", "}", "return"] ∧
     Sso.Generated.skel_sessions_UnmarshalSession =
       ["call:Unmarshal", "if{", "return", "}", "return"] := by decide
 
